@@ -12,7 +12,17 @@ def contig_length(w):
 def genome(w, nmax=12):
     n = weighted(w, [(1, 2), (2, 3), (3, 3), (w.randint(4, 6), 3), (w.randint(7, max(7, nmax)), 1)])
     n = min(n, nmax)
-    return [[f'ctg{i}' if w.random() < 0.8 else f'chrUn_{i}', contig_length(w)] for i in range(n)]
+    g = [[f'ctg{i}' if w.random() < 0.8 else f'chrUn_{i}', contig_length(w)] for i in range(n)]
+    # reference names may hold any printable character but a leading '*' or '=' (SAM spec): alternate-allele contigs of the GRCh38 analysis set
+    if w.random() < 0.2:
+        for i in range(n):
+            if w.random() < 0.5:
+                g[i][0] = f'HLA-A*0{i}:01:0{i}'
+    # two contigs of exactly the same length (homologous scaffolds, duplicated plasmids)
+    if n >= 2 and w.random() < 0.25:
+        i, j = w.sample(range(n), 2)
+        g[j][1] = g[i][1]
+    return g
 
 
 def library(w, contigs, method, n_target=None, defects=True, cells=None, dense=False, umi_len=3):
